@@ -105,6 +105,83 @@ func errsCell(parse *ssa.Function) *ssa.Alloc {
 	return nil
 }
 
+// errAcc: the error list of parse — a variable captured by closures (a cell), or, when nothing
+// captures it, the web of phis and append calls that ends in the value parse returns.
+type errAcc struct {
+	cell *ssa.Alloc
+	web  map[ssa.Value]bool
+}
+
+func errsAccOf(parse *ssa.Function) *errAcc {
+	if c := errsCell(parse); c != nil {
+		return &errAcc{cell: c}
+	}
+	for _, ret := range returnsOf(parse) {
+		if len(ret.Results) != 2 || isNilConst(retResult(ret, 1)) {
+			continue
+		}
+		web := map[ssa.Value]bool{}
+		var walk func(x ssa.Value, depth int)
+		walk = func(x ssa.Value, depth int) {
+			x = strip(x)
+			if web[x] || depth > 40 {
+				return
+			}
+			switch y := x.(type) {
+			case *ssa.Phi:
+				web[x] = true
+				for _, e := range y.Edges {
+					walk(e, depth+1)
+				}
+			case *ssa.Call:
+				if bi, ok := y.Call.Value.(*ssa.Builtin); ok && bi.Name() == "append" {
+					web[x] = true
+					walk(y.Call.Args[0], depth+1)
+				}
+			}
+		}
+		walk(retResult(ret, 1), 0)
+		if len(web) > 0 {
+			return &errAcc{web: web}
+		}
+	}
+	return nil
+}
+
+// is: v is the current value of the error list.
+func (a *errAcc) is(v ssa.Value) bool {
+	v = strip(v)
+	if a.cell != nil {
+		u, ok := v.(*ssa.UnOp)
+		return ok && u.Op == token.MUL && cellOf(u.X) == a.cell
+	}
+	if a.web[v] {
+		return true
+	}
+	// the empty start value of the web
+	return false
+}
+
+// appendsTo: c is `append(<the list>, …)` whose result becomes the list again.
+func (a *errAcc) appendsTo(c *ssa.Call) bool {
+	bi, ok := c.Call.Value.(*ssa.Builtin)
+	if !ok || bi.Name() != "append" {
+		return false
+	}
+	if a.cell != nil {
+		if !a.is(c.Call.Args[0]) {
+			return false
+		}
+		for _, r4 := range *c.Referrers() {
+			if st, ok := r4.(*ssa.Store); ok && cellOf(st.Addr) == a.cell {
+				return true
+			}
+		}
+		return false
+	}
+	return a.web[c]
+}
+
 func ruleP01ErrFlow(p *Prog, r *Report) {
 	const rule = "P01-errflow"
 	parse, fam := parseFamily(p)
@@ -112,8 +189,8 @@ func ruleP01ErrFlow(p *Prog, r *Report) {
 	if !r.anchorFn(rule, parse, "parser.parse") || !r.anchorFn(rule, newM, "HumanError.New") {
 		return
 	}
-	cell := errsCell(parse)
-	if cell == nil {
+	acc := errsAccOf(parse)
+	if acc == nil {
 		r.undecided(rule, "errs", p.pos(parse.Pos()), "the error list returned by parse is not a local variable")
 		return
 	}
@@ -134,15 +211,8 @@ func ruleP01ErrFlow(p *Prog, r *Report) {
 							if sl, ok := r2.(*ssa.Slice); ok {
 								for _, r3 := range *sl.Referrers() {
 									if c, ok := r3.(*ssa.Call); ok {
-										if bi, ok := c.Call.Value.(*ssa.Builtin); ok && bi.Name() == "append" {
-											if u, ok := strip(c.Call.Args[0]).(*ssa.UnOp); ok && cellOf(u.X) == cell {
-												// and the result is stored back
-												for _, r4 := range *c.Referrers() {
-													if st, ok := r4.(*ssa.Store); ok && cellOf(st.Addr) == cell {
-														return true
-													}
-												}
-											}
+										if acc.appendsTo(c) {
+											return true
 										}
 									}
 								}
@@ -163,6 +233,19 @@ func ruleP01ErrFlow(p *Prog, r *Report) {
 					if rv := resultOf(call, idx); rv != nil && reaches(rv, depth+1) {
 						return true
 					}
+				} else if calls := sg.sites[g]; len(calls) > 1 && idx >= 0 {
+					// a local function that is called in several places: the error must reach
+					// the list from every one of them
+					all := true
+					for _, cs := range calls {
+						rv := resultOf(cs, idx)
+						if rv == nil || !reaches(rv, depth+1) {
+							all = false
+						}
+					}
+					if all {
+						return true
+					}
 				}
 			case *ssa.MakeInterface, *ssa.ChangeInterface, *ssa.Phi:
 				if reaches(x.(ssa.Value), depth+1) {
@@ -181,6 +264,9 @@ func ruleP01ErrFlow(p *Prog, r *Report) {
 				return
 			}
 			n++
+			if k := len(sg.sites[f]); k > 1 {
+				n += k - 1 // one creation site that serves k places
+			}
 			code := "?"
 			if rc, _ := callOf(c.Call.Args[0]); rc != nil && staticCallee(rc) != nil {
 				code = fnBase(staticCallee(rc))
@@ -201,8 +287,8 @@ func ruleP01NoRecord(p *Prog, r *Report) {
 	if !r.anchorFn(rule, parse, "parser.parse") {
 		return
 	}
-	cell := errsCell(parse)
-	if cell == nil {
+	acc := errsAccOf(parse)
+	if acc == nil {
 		r.undecided(rule, "errs", p.pos(parse.Pos()), "the error list returned by parse is not a local variable")
 		return
 	}
@@ -211,16 +297,13 @@ func ruleP01NoRecord(p *Prog, r *Report) {
 		if !isNilConst(retResult(ret, 0)) {
 			empty := false
 			for _, g := range guardsOf(ret.Block()) {
-				if x, isNil, ok := nilFact(g); ok && isNil {
-					if u, ok := strip(x).(*ssa.UnOp); ok && cellOf(u.X) == cell {
-						empty = true
-					}
+				if x, isNil, ok := nilFact(g); ok && isNil && acc.is(x) {
+					empty = true
 				}
 			}
 			r.check(empty && isNilConst(retResult(ret, 1)), rule, key, p.instrPos(ret), "a record is returned only when the error list is empty", "a record can be returned although errors were recorded")
 		} else {
-			u, ok := strip(retResult(ret, 1)).(*ssa.UnOp)
-			r.check(ok && cellOf(u.X) == cell, rule, key, p.instrPos(ret), "no record -> the collected errors are returned", "no record is returned but the collected errors are not returned either")
+			r.check(acc.is(retResult(ret, 1)), rule, key, p.instrPos(ret), "no record -> the collected errors are returned", "no record is returned but the collected errors are not returned either")
 		}
 	}
 	// engines: covered by P06-shape (serial) and P07-errmerge (parallel); run them for this property too
@@ -798,6 +881,32 @@ func ruleP16Closed(p *Prog, r *Report) {
 			r.check(al[fnName(f)], rule, tn+":"+fnName(f), p.instrPos(a), tn+" is constructed in its validating constructor", "a "+tn+" value is constructed outside its validating constructor (in "+fnName(f)+"): invalid values become representable")
 		})
 	}
+	// … and stay as constructed: no method writes a field of its receiver (a value that is shared
+	// — the end of a range, an entry of a record — would change under everyone who holds it)
+	for _, f := range p.srcFns {
+		if pkgPathOfFn(f) != modPath+"/klog" || f.Signature.Recv() == nil || len(f.Params) == 0 {
+			continue
+		}
+		tn := typeNameOf(f.Params[0].Type())
+		if _, tracked := allowed[tn]; !tracked {
+			continue
+		}
+		eachInstr(f, func(in ssa.Instruction) {
+			st, ok := in.(*ssa.Store)
+			if !ok {
+				return
+			}
+			fa, ok := st.Addr.(*ssa.FieldAddr)
+			if !ok || strip(fa.X) != ssa.Value(f.Params[0]) {
+				return
+			}
+			if _, isPtr := f.Params[0].Type().Underlying().(*types.Pointer); !isPtr {
+				return
+			}
+			n++
+			r.bad(rule, tn+":mutated:"+fnName(f), p.instrPos(st), "%s overwrites the field %s of its receiver: a %s is an immutable value, and every holder of this one (a range, a record's entry) sees it change", fnName(f), fieldName(fa), tn)
+		})
+	}
 	// validity tests dominate the constructions
 	if f := p.fn("klog", "newTime"); r.anchorFn(rule, f, "klog.newTime") {
 		ok := false
@@ -821,14 +930,19 @@ func ruleP16Closed(p *Prog, r *Report) {
 					if n, _, _, _ := methodCall(g.Cond); n == "IsValid" && g.Pol {
 						okValid = true
 					}
-					if bo, ok := g.Cond.(*ssa.BinOp); ok && !g.Pol {
+					if bo, ok := g.Cond.(*ssa.BinOp); ok {
 						_, fld := fieldLoad(bo.X)
 						k, isK := constInt(bo.Y)
 						if fld == "Year" && isK {
-							if bo.Op == token.LSS && k == 0 {
+							// what is known about the year on the way to the construction
+							op := bo.Op
+							if !g.Pol {
+								op = map[token.Token]token.Token{token.LSS: token.GEQ, token.GEQ: token.LSS, token.GTR: token.LEQ, token.LEQ: token.GTR, token.EQL: token.NEQ, token.NEQ: token.EQL}[op]
+							}
+							if (op == token.GEQ && k == 0) || (op == token.GTR && k == -1) {
 								lo = true
 							}
-							if bo.Op == token.GTR && k == 9999 {
+							if (op == token.LEQ && k == 9999) || (op == token.LSS && k == 10000) {
 								hi = true
 							}
 						}
@@ -1094,6 +1208,12 @@ func ruleP16Plus(p *Prog, r *Report) {
 	var base ssa.Value
 	for i := range mins.Edges {
 		s, isK := constInt(shift.Edges[i])
+		if !isK {
+			// `shift--` on a variable that holds 0 is 0 - 1 in SSA, not a constant
+			if sp := polyOf(shift.Edges[i]); sp.isConst() {
+				s, isK = sp.C, true
+			}
+		}
 		if !isK {
 			okAll = false
 			continue
